@@ -89,24 +89,32 @@ def run(repo, tier):
     r.ob("R7.2", "expr.py::Expr._compute_serialized constant key contains the value's type", has_type,
          "the key of a constant no longer contains type(value): 1, 1.0 and True hash and compare equal", loc(rel, plain))
     encoders = []
+    conditional = []
     raw = False
     for c in comps:
         if isinstance(c, ast.Name) and c.id == "value":
             raw = True
-        for call in calls_in(c):
-            nm = call_name(call) or ""
+            continue
+        if "type(value)" in norm_src(c):
+            continue
+        # an encoding counts only when it is applied unconditionally: the tuple element itself is the encoder call
+        if isinstance(c, ast.Call):
+            nm = call_name(c) or ""
             last = nm.split(".")[-1]
-            if (nm in INJECTIVE_ENCODERS or last in INJECTIVE_ENCODERS) and any("value" in _names(a) for a in call.args) or (
-                isinstance(call.func, ast.Attribute) and last in INJECTIVE_ENCODERS and "value" in _names(call.func.value)
-            ):
-                if "type(value)" not in norm_src(call):
-                    encoders.append(nm)
+            on_value = any("value" in _names(a) for a in c.args) or (isinstance(c.func, ast.Attribute) and "value" in _names(c.func.value))
+            if (nm in INJECTIVE_ENCODERS or last in INJECTIVE_ENCODERS) and on_value and not any(isinstance(x, (ast.IfExp, ast.BoolOp)) for x in ast.walk(c)):
+                encoders.append(nm)
+                continue
+        if "value" in _names(c) and any(isinstance(x, (ast.IfExp, ast.BoolOp, ast.Compare)) for x in ast.walk(c)):
+            conditional.append(norm_src(c))
     ok = bool(encoders)
     r.ob(
         "R7.1",
         "expr.py::Expr._compute_serialized constant value encoding",
         ok,
-        f"the value enters the key only as `{norm_src(plain)}`; tuples compare with == and hash(), under which 0.0 and -0.0 are the "
+        f"the value enters the key only as `{norm_src(plain)}`"
+        + (f" (the encoding `{conditional[0]}` is applied only under a condition on the value, e.g. not for a non-zero complex value with a signed-zero part)" if conditional else "")
+        + "; tuples compare with == and hash(), under which 0.0 and -0.0 (and complex values differing in the sign of a zero part) are the "
         "same key, so constant(-0.0, x) returns a previously built constant(0.0, x) (or vice versa, depending on history)",
         loc(rel, plain),
         sample=dict(rule="R7.1", key_component=norm_src(plain), encoders=encoders, raw_value_present=raw),
